@@ -70,6 +70,14 @@ CHECKS = {
          "Generated-input differential testing against pandas on exactly the rows inside the window, after every batch. Exploration only.",
          "Trusted: pandas as the reference; window slice definitions cat.iloc[-N:] and index > max - T.",
          "DESIGN.md section 4 C07"),
+ "C11": ("Hypothesis-generated tables x two independent batch splits x rolling/cumulative/expanding/ewm operations; reference oracle (pandas in one pass over the concatenation / on the prefix) + metamorphic relation (two splits, same result)",
+         "Generated-input search over every kind of split (empty batches, batches shorter than the window) with a reference and a metamorphic oracle. Exploration only.",
+         "Trusted: pandas defaults exactly as streamz calls them; ewm with NaN is a recorded known finding.",
+         "DESIGN.md section 4 C11"),
+ "C12": ("Hypothesis-generated batch sequences x every cut point x state-exposing aggregation families; round-trip oracle: fresh pipeline seeded with the deep-copied state at cut k reproduces the uninterrupted run's suffix",
+         "Generated crash-point search: every cut of every generated sequence is resumed from its captured state and compared with the uninterrupted run (streamz vs streamz). Exploration only.",
+         "Trusted: deep copy of the emitted state is the checkpoint; resumed pipelines use the empty example frame.",
+         "DESIGN.md section 4 C12"),
 }
 NOT_YET = "check not built yet in this session (the property is decidable with this technique; see DESIGN.md section 4)"
 
